@@ -21,9 +21,11 @@ CLAIMED = True
 LEVEL = "proof"
 TECHNIQUE = ("Lean 4 invariant proofs (every history, every refusal index, every frame of foreign blocks) over allocation-explicit "
              "models of the library's allocation building blocks -- XalanVector with and without allocating elements, XalanList, "
-             "ReusableArenaBlock and the allocate/construct/commit protocol, destroyObject of the arena block list, XalanMemMgrAutoPtr, "
+             "ReusableArenaBlock and the allocate/construct/commit protocol, destroyObject of the arena block list, XalanMemMgrAutoPtr, the "
+             "transcoder slot of XalanOutputStream, "
              "XalanConstruct/XalanAllocationGuard, reserve-before-create -- each tied to the working tree by lock-step replay of the "
-             "real templates under a counting/failing MemoryManager for every refusal index; the library as a whole is covered by "
+             "real templates under a counting/failing MemoryManager for every refusal index; a translator regenerates the table of all "
+             "XalanConstruct overloads and placement-new sites and the guard-shape theorems are re-proved over it; the library as a whole is covered by "
              "exhaustive fault-index ENUMERATION (not proof) of the XalanTransformer API: every allocation index of every phase of a "
              "fixed scenario set refused once in its own process, evaluated against the specification predicate")
 LEVEL_TEXT = ("PROVED (Props/C19.lean, kernel-checked, unbounded): with a ledger of outstanding blocks in which request number k is "
@@ -31,9 +33,11 @@ LEVEL_TEXT = ("PROVED (Props/C19.lean, kernel-checked, unbounded): with a ledger
               "the element-copy loops), lists, arena blocks and auto pointers keep live = owned + frame, never free a block they do "
               "not own, stay destructible after any refusal and return every block in their destructors; destroyObject of the arena "
               "block list and the destructors/clear of lists make no allocation request; XalanConstruct and reserve-before-create are "
-              "exception-neutral. The defects of the original code are proved as counterexamples. Names ending _partial say what is "
+              "exception-neutral; every XalanConstruct/XalanCopyConstruct overload and every placement-new site of the current tree has an "
+              "owner for its storage (regenerated table, decide); the output stream's transcoder slot is never destroyed twice over all "
+              "setOutputEncoding histories. The defects of the original code are proved as counterexamples. Names ending _partial say what is "
               "missing (one arena block, lists only). ENUMERATED, NOT PROVED: the ~1000-7000 allocation sites of a transformation -- for "
-              "11 fixed scenarios every allocation index of ctor/compile/parse/transform/destroy is refused once on the real library "
+              "11 fixed scenarios, 26 stylesheets failing for non-memory reasons and 2 reused-output-stream scenarios every allocation index of ctor/compile/parse/transform/destroy is refused once on the real library "
               "(exhaustive in the index, not in scenarios) and process survival, double/foreign frees, surfacing of the failure, balance "
               "at destruction (also of the compiled stylesheet alone) and a fresh transformer are checked; recorded traces are judged by "
               "the Lean ledger.")
@@ -67,6 +71,10 @@ THEOREMS = [
     "XalanModel.Props.C19.arena_destroyObject_makes_no_request",
     "XalanModel.Props.C19.arena_push_then_erase_allocates_counterexample",
     "XalanModel.Props.C19.autoptr_balanced_and_failure_contained",
+    "XalanModel.Props.C19.all_construct_overloads_guarded",
+    "XalanModel.Props.C19.all_placement_sites_owned",
+    "XalanModel.Props.C19.ostream_transcoder_no_double_destroy",
+    "XalanModel.Props.C19.ostream_stale_pointer_counterexample",
     "XalanModel.Props.C19.guard_idiom_sound",
     "XalanModel.Props.C19.reserve_before_create_sound",
     "XalanModel.Props.C19.create_then_push_leaks_counterexample",
@@ -81,6 +89,15 @@ QUICK_SCENARIOS = [("s1", "split"), ("s2", "direct"), ("s3", "split"), ("s4", "d
                    ("s11", "split")]  # > blockSize simultaneously live objects of the arena-allocated types, out-of-order release
 THOROUGH_SCENARIOS = QUICK_SCENARIOS + [("s5", "split"), ("s6", "split"), ("s2", "split"), ("s5", "direct"), ("s9", "direct")]
 PHASES = ["ctor", "compile", "parse", "transform", "destroy"]
+
+# Stylesheets that FAIL for reasons other than memory: each hits the constructor / checks of one instruction class (built with the
+# XalanConstruct overloads or an arena create()), or fails at run time.  Balance (no refusal) is evaluated for all of them in
+# every run; their refusal sweeps rotate with the seed in the quick tier and are complete in the thorough tier.
+BAD_FAMILY = ["b%02d" % i for i in range(1, 28) if i != 17]
+# application-owned XalanStdOutputStream + XalanOutputStreamPrintWriter reused for several results with different encodings
+WRITER_SCENARIOS = [("w2", "writer"), ("w1", "writer")]     # w2: ISO-8859-1, US-ASCII;  w1: nine results incl. UTF-16/UTF-8/unsupported
+# quick tier: phases swept per scenario (default: all); the rest of a large scenario is swept in the thorough tier
+QUICK_PHASES = {"s11": ("ctor", "parse", "transform", "destroy"), "w1": ()}
 
 
 def fields(line):
@@ -423,7 +440,15 @@ def api_part(ctx, r, model):
     exe = common.build_harness("c19_memmgr", ["c19_memmgr.cpp"], flavor="hooks", sanitize=False, extra=["-ldl", "-rdynamic"])
     work = os.path.join(common.CACHE, "work", "c19")
     os.makedirs(work, exist_ok=True)
-    scenarios = THOROUGH_SCENARIOS if ctx.thorough else QUICK_SCENARIOS
+    scenarios = list(THOROUGH_SCENARIOS if ctx.thorough else QUICK_SCENARIOS)
+    scenarios += WRITER_SCENARIOS
+    bad = [(b, "split") for b in BAD_FAMILY]
+    if ctx.thorough:
+        swept_bad = set(BAD_FAMILY)
+    else:
+        swept_bad = set(r.shuffle(BAD_FAMILY)[:4])
+    scenarios += bad
+    ctx.extra["bad_family_swept"] = sorted(swept_bad)
     excs = ["oom", "badalloc"] if ctx.thorough else ["oom"]
     jobs = str(max(2, min(16, common.NPROC)))
     stats = {"children": 0, "ended_normally": 0, "leak_after_failure": 0, "surfaced_as_exception": 0,
@@ -435,7 +460,12 @@ def api_part(ctx, r, model):
         tag = "%s-%s" % (name, api)
         trace = os.path.join(work, "trace_%s.txt" % tag)
         rc, lines = run_harness(exe, ["count", xsl, xml, api, trace])
-        cl = [l for l in lines if l.startswith("counts")]
+        died = [l for l in lines if l.startswith("counts-died")]
+        if died:
+            ctx.fail("api.died-without-refusal[%s] %s" % (tag, died[0].split("end=")[-1]),
+                     "no allocation refused, yet the scenario ends the process: " + died[0], {"scenario": tag, "k": 0})
+            continue
+        cl = [l for l in lines if l.startswith("counts ")]
         if not cl:
             ctx.oblige("fault harness: counting run of scenario " + tag, "correspondence", False, "\n".join(lines)[-1500:])
             continue
@@ -464,8 +494,11 @@ def api_part(ctx, r, model):
             trace_ok = False; trace_detail.append("%s: trace rejected by Ledger.replayAll" % tag)
         elif (v["verdict"] == "balanced") != (c["live"] == "0" and c["foreign"] == "0" and c["double"] == "0") or v.get("live") != c["live"]:
             trace_ok = False; trace_detail.append("%s: Lean ledger says %s, harness counters %s" % (tag, v, cl[0]))
-        for exc in (excs if name in ("s1", "s3", "s6", "s8") else excs[:1]):
-            for ph in PHASES:
+        if name in BAD_FAMILY and name not in swept_bad:
+            continue          # balance evaluated above; refusal sweep of this member is not in this run's rotation
+        phases = PHASES if ctx.thorough else QUICK_PHASES.get(name, PHASES)
+        for exc in (excs if name in ("s1", "s3", "s6", "s8", "w2") else excs[:1]):
+            for ph in phases:
                 n = int(c.get("n_" + ph, "0"))
                 if n == 0:
                     continue
@@ -573,6 +606,69 @@ def api_part(ctx, r, model):
         ctx.hist["api:" + k2] = v2
 
 
+ENC_NAMES = {"UTF-16": "utf16", "UTF-8": "utf8", "ISO-8859-1": "latin1", "US-ASCII": "ascii", "X-NO-SUCH-ENCODING": "unsupported"}
+
+
+def ostream_part(ctx, r, model, exe):
+    """the transcoder slot of an application-owned XalanStdOutputStream as a state machine: the real stream replays
+    setOutputEncoding histories with every request index refused once; the Lean model (OStream.setEnc) is driven with the same
+    history and the failure kind the real call was observed to have; slot occupancy and bad frees must agree after every call,
+    the destructor must leave nothing (when nothing was refused) and free nothing twice"""
+    nhist = 6 if not ctx.thorough else 40
+    corpus = [["ISO-8859-1", "UTF-16"], ["ISO-8859-1", "US-ASCII"], ["ISO-8859-1", "UTF-16", "US-ASCII", "US-ASCII", "X-NO-SUCH-ENCODING", "UTF-8"]]
+    hists = corpus + [[r.choice(list(ENC_NAMES)) for _ in range(r.range(2, 6))] for _ in range(nhist)]
+    agree, detail, runs = True, [], 0
+    req_lines, expect = [], []
+    for h in hists:
+        for k in range(0, 8 * len(h) + 2):
+            rc, out = run_harness(exe, ["enc", str(k)] + h)
+            lines = [l for l in out if l.startswith(("enc ", "destroyed", "died"))]
+            runs += 1
+            ctx.case(nontrivial_key=("enc", tuple(h), k) if k else None, cls="ostream-history")
+            text = "failAt=%d ; %s" % (k, " ; ".join(h))
+            if any(l.startswith("died") for l in lines) or not lines or not lines[-1].startswith("destroyed"):
+                ctx.fail("ostream.died: " + text, "setOutputEncoding history on one stream ends the process: " + " | ".join(lines)[-400:],
+                         {"enc_history": h, "k": k})
+                continue
+            fin = fields(lines[-1])
+            if fin.get("bad") != "0":
+                ctx.fail("ostream.double-destroy: " + text, "double/foreign free: " + " | ".join(lines)[-400:], {"enc_history": h, "k": k})
+            req_lines.append("os new"); expect.append(None)
+            refused = False
+            for l, e in zip(lines[:-1], h):
+                t = l.split()
+                word, f = t[2], fields(l)
+                oracle = "0"
+                if ENC_NAMES[e] == "unsupported" and word == "oom":
+                    word = "exc"; refused = True      # refused while finding out that the encoding is unsupported: throws either way
+                elif word == "oom":
+                    oracle = "2" if (f["slot"] == "1" or ENC_NAMES[e] == "utf16") else "1"; refused = True
+                req_lines.append("os setenc %s %s" % (ENC_NAMES[e], oracle))
+                expect.append((text, "enc %s slot=%s bad=%s" % (word, f["slot"], f["bad"])))
+            req_lines.append("os destroy")
+            expect.append((text, None if refused else "destroyed live=%s bad=%s" % (fin["live"], fin["bad"])))
+            if not refused and fin.get("live") != "0":
+                ctx.fail("ostream.unbalanced: " + text, "blocks outstanding after ~XalanStdOutputStream: " + lines[-1], {"enc_history": h, "k": k})
+    work = os.path.join(common.CACHE, "work", "c19")
+    req = os.path.join(work, "ostream_%d.req" % ctx.seed)
+    with open(req, "w") as f:
+        f.write("\n".join(req_lines) + "\n")
+    rc, out = common.sh("%s < %s" % (model, req))
+    ml = out.split("\n")
+    for i, ex in enumerate(expect):
+        if ex is None or ex[1] is None:
+            continue
+        got = ml[i] if i < len(ml) else "<missing>"
+        if got != ex[1]:
+            agree = False
+            detail.append({"history": ex[0], "impl": ex[1], "model": got})
+            if len(detail) > 3:
+                break
+    ctx.hist["ostream:histories_x_indices"] = runs
+    ctx.oblige("correspondence: XalanOutputStream transcoder slot (real stream, every refusal index) = Lean state machine OStream.setEnc",
+               "correspondence", agree, str(detail[:2]))
+
+
 def asan_part(ctx, r):
     """thorough tier: the same fault enumeration on an AddressSanitizer+UBSan build of the library, with a manager that
     really frees (so use-after-free / double free inside the library is seen by ASan), for two scenarios.
@@ -643,13 +739,25 @@ def run(ctx):
         "over the fixed scenario set gen/corpus/c19 only); element construction = one refusable allocation",
     ]
     ctx.build("hooks")
+    # regenerated on every run: the XalanConstruct/XalanCopyConstruct overloads and every placement-new site of the working tree
+    ok_tr, tr_out = ctx.translate("c19_construct")
+    ctx.extra["construct_translator"] = tr_out.strip().split("\n")[:12]
     ctx.lean("XalanModel.Props.C19", THEOREMS, extra_targets=["xm_c19"])
     model = ctx.exe("xm_c19")
     if model is None:
         return
     r = Rng(ctx.seed)
+    import time
+    t0 = time.time()
     container_part(ctx, r, model)
+    t1 = time.time()
     api_part(ctx, r, model)
+    t2 = time.time()
+    exe = common.build_harness("c19_memmgr", ["c19_memmgr.cpp"], flavor="hooks", sanitize=False, extra=["-ldl", "-rdynamic"])
+    ostream_part(ctx, r, model, exe)
+    t3 = time.time()
+    ctx.extra["seconds"] = {"container_correspondence": round(t1 - t0, 1), "api_fault_enumeration": round(t2 - t1, 1),
+                            "ostream_state_machine": round(t3 - t2, 1)}
     if ctx.thorough:
         asan_part(ctx, r)
     ctx.extra.pop("_ended_abnormally", None)
